@@ -35,6 +35,7 @@ fn exec(w: usize, n: usize, prefix: &[usize]) -> (Exec<Vec<usize>>, Vec<usize>) 
         })),
         monitor: None,
         step_log: None,
+        free_receivers: vec![],
     };
     let s2 = shared.clone();
     let x = sched::run(cfg, move |_ctl| {
